@@ -417,7 +417,13 @@ class ProvRecord(object):
             # Check if one of the attributes specifies that the current type
             # is a collection. In that case multiple attributes of the same
             # type are allowed.
-            if PROV_ATTR_COLLECTION in [_i[0] for _i in attributes]:
+            # (only a membership that does not have a member yet: any other
+            # record, and a membership that is added to later, holds one entity)
+            if (
+                self.get_type() == PROV_MEMBERSHIP
+                and not self._attributes.get(PROV_ATTR_ENTITY)
+                and PROV_ATTR_COLLECTION in [_i[0] for _i in attributes]
+            ):
                 is_collection = True
             else:
                 is_collection = False
